@@ -1,25 +1,19 @@
 /-
-C09 — the clause the unchanged tree violates, with a proved counter-example.
+C09 — the clause the tree violated before fix d6561d4, kept as non-vacuity theorems about the
+OLD Cleanup (`Model.stepDeleteOld` / `stepOld` / `runOld`), and what the fixed code does on the
+same inputs.
 
-FULL STATEMENT (property text: "…also across config reloads that keep the upstream"; DESIGN §4 C09
-`host_preserved_across_reload : key ∈ old ∩ new → hostsPool key ≥ 1 throughout` (same Host object)):
+STATEMENT (property text: "…also across config reloads that keep the upstream"; DESIGN §4 C09
+`host_preserved_across_reload : key ∈ old ∩ new → hostsPool key ≥ 1 throughout`, same Host object):
+now proved at full strength as `Props.host_preserved_across_reload`.
 
-    theorem host_preserved_across_reload {s s' : State} {a : Action} (h : Reachable s)
-        (hs : step s a = some s') (k : Key) (hb : 0 < holders s k) (ha : 0 < holders s' k) :
-        ∃ o, poolObj s k = some o ∧ poolObj s' k = some o
-
-It is FALSE for the code that exists: `Handler.Cleanup` (reverseproxy.go:392-401) deletes every
-configured upstream from the `hosts` pool, and `Context.LoadModule` (context.go:409-421) calls
-`Cleanup` on a module whose `Provision` failed — also when it failed *before* `provisionUpstream`
-stored anything (bad `trusted_proxies`, transport, selection policy, circuit breaker, dynamic
-upstream source, embedded header/rewrite handler).  The rejected configuration thereby takes away
-a reference that belongs to the running one; the entry is dropped from the pool while the running
-handler still uses it, and the next reload that keeps the upstream gets a *fresh* Host: in-flight
-count and failure count restart from zero although requests of the old configuration are still
-being sent to that upstream.
-
-`Props.host_preserved_across_reload_partial` proves the clause for all runs in which every
-Cleanup delete is matched by a store of the same handler (`Action.matched`, decidable).
+It was FALSE for the old code: `Handler.Cleanup` deleted every configured upstream from the `hosts`
+pool, and `Context.LoadModule` (context.go:409-421) calls `Cleanup` on a module whose `Provision`
+failed — also when it failed *before* `provisionUpstream` stored anything.  The rejected
+configuration thereby took away a reference that belonged to the running one; the entry was dropped
+from the pool while the running handler still used it, and the next reload that kept the upstream
+got a *fresh* Host.  The fix makes Cleanup skip upstreams whose `Host` is nil.  The former witness
+line is now a regression case in corpus/C09/ that must pass.
 -/
 import CaddyModel.C09.Concrete
 
@@ -48,25 +42,28 @@ theorem witness_step (as : List Action) (a : Action) {P Q : State → Prop}
     storing anything and is cancelled; the next step is its Cleanup -/
 def wBad : List Action := [.newCfg pA, .store 0 7, .newCfg noParams, .cancel 1]
 
-/-- **host_preserved_full_fails** — negation of the full statement: a reachable state and one step
-    (the unmatched Cleanup delete of a rejected configuration) with key 7 in use by a loaded handler
-    before and after, yet the pool loses its Host object. -/
-theorem host_preserved_full_fails :
-    ∃ (s s' : State) (a : Action) (k : Key), Reachable s ∧ step s a = some s' ∧
-      0 < holders s k ∧ 0 < holders s' k ∧ ¬ ∃ o, poolObj s k = some o ∧ poolObj s' k = some o := by
-  obtain ⟨s, s', hr, hs, ⟨hb, ho⟩, ⟨ha, ho'⟩⟩ :=
-    witness_step wBad (.delete 1 7) (P := fun s => 0 < holders s 7 ∧ poolObj s 7 = some 0)
-      (Q := fun s => 0 < holders s 7 ∧ poolObj s 7 = none) (by decide) (by decide)
-  refine ⟨s, s', .delete 1 7, 7, hr, hs, hb, ha, ?_⟩
-  rintro ⟨o, _, h2⟩
-  rw [ho'] at h2; cases h2
+/-- **host_preserved_old_code_fails** — the statement of `Props.host_preserved_across_reload` is false
+    for the old Cleanup: after `wBad`, the unmatched delete of the rejected configuration leaves key 7
+    in use by a loaded handler before and after, yet the pool loses its Host object. -/
+theorem host_preserved_old_code_fails :
+    ∃ (as : List Action) (a : Action) (k : Key),
+      HoldsAfterOld as (fun s => 0 < holders s k ∧ poolObj s k = some 0) ∧
+      HoldsAfterOld (as ++ [a]) (fun s => 0 < holders s k ∧ poolObj s k = none ∧ refs s k ≠ holders s k) :=
+  ⟨wBad, .delete 1 7, 7, by decide, by decide⟩
 
-/-- the excluded region is exactly this: the delete is not matched -/
-example : HoldsAfter wBad (fun s => (Action.delete 1 7).matched s = false) := by decide
+/-- the next configuration that keeps the key then got a fresh Host object under the old code … -/
+theorem reload_after_failed_provision_got_new_host_old_code_fails :
+    HoldsAfterOld (wBad ++ [.delete 1 7, .newCfg pA, .store 2 7])
+      (fun s => s.cfgs.map (·.ups) = [[(7, 0)], [], [(7, 1)]]) := by decide
 
-/-- the same at the level of the harness schedule `sched 1 L:0:…;B:0;L:0:…` (exported as a protocol
-    line in `Driver.witnessLines`): the configuration loaded after the rejected one keeps key 0 but
-    gets Host object 1 instead of 0, and the pool no longer has the key once the old one is unloaded -/
+/-- … while the fixed code, on the very same action sequence, hands it the Host in use -/
+theorem reload_after_failed_provision_keeps_host :
+    HoldsAfter (wBad ++ [.delete 1 7, .newCfg pA, .store 2 7])
+      (fun s => s.cfgs.map (·.ups) = [[(7, 0)], [], [(7, 0)]] ∧ refs s 7 = 2) := by decide
+
+/-- the same at the level of the harness schedule `sched 1 L:0:…;B:0;L:0:…` (the former witness
+    line, now corpus/C09/regression.txt): the configuration loaded after the rejected one keeps key 0
+    and gets the same Host object 0 -/
 def wSched : List SStep := [.load [0] pA, .badLoad [0], .load [0] pA]
 
 def runSteps (d : DState) : List SStep → Option DState
@@ -76,14 +73,14 @@ def runSteps (d : DState) : List SStep → Option DState
     | some x => runSteps { x.1 with s := settle x.1.s } rest
     | none => none
 
-theorem reload_after_failed_provision_gets_new_host :
-    (runSteps dinit wSched).map (fun d => (d.s.cfgs.map (·.ups), poolObj d.s 0, d.s.nextHost))
-      = some ([[(0, 0)], [], [(0, 1)]], none, 2) := by decide
+theorem sched_reload_after_failed_provision_keeps_host :
+    (runSteps dinit wSched).map (fun d => (d.s.cfgs.map (·.ups), poolObj d.s 0, refs d.s 0, d.s.nextHost))
+      = some ([[(0, 0)], [], [(0, 0)]], some 0, 1, 1) := by decide
 
-/-- consequence for the in-flight clause: a request of the old configuration is still being sent to
-    key 0, but the Host the new configuration consults for key 0 says nothing is in flight -/
-theorem inflight_not_shared_after_failed_provision :
+/-- in-flight clause across such a reload: the request of the old configuration is visible to the
+    new one (same Host object) -/
+theorem inflight_shared_after_failed_provision :
     (runSteps dinit [.load [0] pA, .newReq true, .badLoad [0], .load [0] pA]).map
-      (fun d => (d.s.inflight 0, d.s.inflight 1, d.s.cfgs.map (·.ups))) = some (1, 0, [[(0, 0)], [], [(0, 1)]]) := by decide
+      (fun d => (d.s.inflight 0, d.s.nextHost, d.s.cfgs.map (·.ups))) = some (1, 1, [[(0, 0)], [], [(0, 0)]]) := by decide
 
 end CaddyModel.C09
